@@ -36,7 +36,26 @@ claim("C14", "model_checking",
       "State machine inject / change host nodes / inject: after every step the JSON image of every cached Spec and device (through the query API) must be unchanged, each injection must match the model's result for the current host table, cached Specs must be writable again; every C03 row additionally checks that Apply leaves the edits passed in untouched.",
       EDIT_NOTE, "TLA+ spec EditsInject histories (TLC exhaustive + simulate) replayed into the real Cache with before/after images", "5 C14", "edits")
 
+DOC_NOTE = ("Trusted: the TLA+ transcription of the rule, the one-spelling-per-token renderer (harness), TLC. Exhaustive for single-slot changes of the base documents; multi-slot changes are sampled.")
+claim("C05", "model_checking",
+      "The admission rule of SPEC.md is transcribed into TLA+ over a token model of the document; TLC enumerates every document one slot away from four base documents (every defect kind of the statement at spec level, first/middle/last device, first/last list element, plus all well-formed alternatives) and random documents up to three changes away; each is rendered as JSON and YAML and must be admitted iff Admissible by ReadSpec, by a cache refresh (error entry iff inadmissible, neighbour file unaffected) and by WriteSpec (nothing written when rejected).",
+      DOC_NOTE, "TLA+ decision procedure (SpecDoc.Admissible) enumerated by TLC, one implementation test per state, evaluated on ReadSpec/cache/WriteSpec", "5 C05, 4.4", "specdoc")
+claim("C06", "model_checking",
+      "Required(doc) = highest introduction version of the features used anywhere; TLC checks order-independence on the model and enumerates feature placements (spec level, device k of n, every gated feature, every released and malformed declared version); MinimumRequiredVersion, ValidateVersion and ReadSpec are evaluated under every permutation of the devices.",
+      DOC_NOTE, "TLA+ decision procedure (SpecDoc.Required/VersionValid) enumerated by TLC, evaluated on specs.MinimumRequiredVersion/ValidateVersion under all device permutations", "5 C06", "specdoc")
+STR_NOTE = "Trusted: the TLA+ grammar, the symbol-to-bytes concretisation with class-preserving substitutions, TLC. Exhaustive up to the stated string lengths over the stated alphabets."
+claim("C07", "model_checking",
+      "The grammar is transcribed into TLA+ (Split/Parse/VCOK/NameOK); TLC enumerates every string up to length 4/5 over a 13-symbol alphabet and 3/4 over a 20-symbol boundary alphabet plus part-structured vendor/class=name combinations, checks round-trip/failure-contract/compose-parse on the oracle, and every row is evaluated on all seven parser entry points in three spellings.",
+      STR_NOTE, "TLA+ decision procedure (QName.Parse) enumerated by TLC, evaluated on parser.ParseQualifiedName/IsQualifiedName/ParseDevice/QualifiedName/Validate*", "5 C07", "strings")
+claim("C15", "model_checking",
+      "Annotation map state machine in TLA+ (Update/Parse with run-length strings for lengths around 63); TLC explores all single and double updates over 14 plugins x 13 ids x 8 device lists x 5 initial maps and random triples; the real helpers must leave the map untouched on failure, add exactly one legal key whose value parses back, never overwrite, and Parse must return per-key devices in order or an error with empty results.",
+      STR_NOTE, "TLA+ state machine (Annotations) explored by TLC, behaviours replayed into cdi.UpdateAnnotations/ParseAnnotations/AnnotationKey/AnnotationValue", "5 C15", "strings")
+
 ENGINES = [
+ {"name": "specdoc", "path": "spec/SpecDoc.tla spec/SpecDocGen.tla spec/MCSpecDoc.tla harness/specdoc.go", "serves_properties": ["C05", "C06"],
+  "kind_free_text": "token model of the Spec document with admission and required-version rules; TLC enumerates documents, harness renders JSON/YAML and runs every entry point"},
+ {"name": "strings", "path": "spec/QName.tla spec/QNameStrings.tla spec/QNameParts.tla spec/Annotations.tla harness/qname.go harness/annot.go", "serves_properties": ["C07", "C15"],
+  "kind_free_text": "grammar and annotation-map models over symbol strings, enumerated by TLC, evaluated on the parser and annotation helpers"},
  {"name": "edits", "path": "spec/Edits.tla spec/EditsApply.tla spec/EditsInject.tla harness/editsreplay.go harness/injectreplay.go", "serves_properties": ["C02", "C03", "C14"],
   "kind_free_text": "TLA+ oracle for container edits and injection, enumerated by TLC, replayed into the real code with real device nodes"},
  {"name": "cacheseq", "path": "spec/CacheSeq.tla spec/Resolve.tla spec/MCCacheSeq.tla harness/cachereplay.go", "serves_properties": ["C01", "C04", "C13", "C16"],
